@@ -205,15 +205,17 @@ nr : ${Counts:n}
 cutoff : ${Variables:cut}
 [Counts]
 n : 11
+m : ${n}
+big : ${A_val}
 [Pair]
 A-B : as.buck ${A_val} ${rho} ${Variables:rho}
 [Potential-Form]
 f(r) : ${A_val}*r
 [Table-Form:t]
-x : 0 ${Counts:n}
+x : 0 ${Counts:m}
 y : 0 1
 [Species]
-A.atomic_mass : ${A_val}
+A.atomic_mass : ${Counts:big}
 """
     templated = templated.replace("[Variables]\n", "[Variables]\ncut : 5.0\n")
     plain = """[Tabulation]
@@ -222,6 +224,8 @@ nr : 11
 cutoff : 5.0
 [Counts]
 n : 11
+m : 11
+big : 1000.0
 [Pair]
 A-B : as.buck 1000.0 0.3 0.3
 [Potential-Form]
@@ -238,14 +242,24 @@ A.atomic_mass : 1000.0
         return
     (It, cpt), (Ip, cpp) = rt, rp
     cls = P.cls(CP, "ConfigParser")
+    def view(J, cp_, *path):
+        # what the accessor gives - or the exception it ends in (a templated file that is refused where the hand-substituted
+        # one is read is a difference, not a gap of the analysis)
+        try:
+            v = cp_
+            for nm in path:
+                v = J.getattr(v, nm)
+            return _norm(v)
+        except RaiseSignal as e:
+            return "raises %r" % (e.exc,)
     for pname in ("pair", "potential_form", "table_form", "species"):
-        a = _norm(It.getattr(cpt, pname))
-        b = _norm(Ip.getattr(cpp, pname))
+        a = view(It, cpt, pname)
+        b = view(Ip, cpp, pname)
         chk.ob("C15.O3", "ConfigParser.%s of the templated file equals that of the hand-substituted file" % pname, a == b,
                site=cls.lookup(pname).site(), found=a, expect=b, key="C15.O3|%s" % pname)
     for attr in ("nr", "cutoff"):
-        a = _norm(It.getattr(It.getattr(cpt, "tabulation"), attr))
-        b = _norm(Ip.getattr(Ip.getattr(cpp, "tabulation"), attr))
+        a = view(It, cpt, "tabulation", attr)
+        b = view(Ip, cpp, "tabulation", attr)
         chk.ob("C15.O3", "[Tabulation] %s given through a placeholder" % attr, a == b, site=cls.site_of("tabulation"), found=a, expect=b,
                key="C15.O3|tabulation.%s" % attr)
     # the file is the only source of placeholder values: whatever the package hands to the library as `vars` would take
